@@ -252,6 +252,21 @@ Example C15_config_options_nonvacuous :
   run_unpack E_cfg Mixin (TData "A") (VDict [("z", VInt 1); ("a_b", VInt 2); ("a", VStr "s"); ("q", VInt 0)]) = Err (XExtra "A").
 Proof. repeat split; reflexivity. Qed.
 
+(* omit_default with literal defaults: a field equal to its default is dropped (a None default also under a None value);
+   a missing key decodes to the default *)
+Definition E_od : env :=
+  [mkC "A" None [mkF "x" None TInt; mkF "y" None (TOpt TStr); mkF "z" None TStr] None None (Some true)
+       [("x", VInt 7); ("y", VNone)] false false false true].
+Example C15_omit_default_nonvacuous :
+  let v := VObj "A" [("x", VInt 7); ("y", VNone); ("z", VStr "s")] in
+  exact E_od v (TData "A") = true /\ dialect_compat_o E_od (mkO None None (Some true)) = true /\
+  run_pack_o E_od Mixin (mkO None None (Some true)) (TData "A") v = Ok (VDict [("z", VStr "s")]) /\
+  run_pack_o E_od Codec (mkO None None (Some true)) (TData "A") v = Ok (VDict [("z", VStr "s")]) /\
+  run_pack_o E_od Codec no_opts (TData "A") (VObj "A" [("x", VInt 8); ("y", VStr "q"); ("z", VStr "s")])
+    = Ok (VDict [("x", VInt 8); ("y", VStr "q"); ("z", VStr "s")]) /\
+  run_unpack E_od Mixin (TData "A") (VDict [("z", VStr "s")]) = Ok (VObj "A" [("x", VInt 7); ("y", VNone); ("z", VStr "s")]).
+Proof. repeat split; reflexivity. Qed.
+
 (* the frame theorem's hypothesis is met by a real creation (a subclass that compiles a method onto "C") *)
 Example C15_frame_nonvacuous :
   let X := add_class E_ex (mkC "S" (Some "O") [mkF "g" None (TData "C")] None None None [] false false false true) ["C"] in
